@@ -67,6 +67,7 @@ bool verif_feq(double a, double b) {
     return d <= 1e-9 * s;
 }
 void verif_reach() {}
+bool verif_native() { return true; }
 void verif_note(int tag, std::uint64_t v) { std::printf("NOTE %d %llx\n", tag, (unsigned long long)v); }
 }
 
